@@ -144,8 +144,8 @@ func checkBatch(P *core.Program, R *core.Report) {
 			}
 		}
 	}
-	if nApply != 3 {
-		R.Add("C04-batch", key, "ApplySwapRequest sites", P.Pos(fn.Pos()), false, fmt.Sprintf("expected 3 sites, found %d (anchor changed)", nApply))
+	if nApply == 0 {
+		R.Add("C04-batch", key, "ApplySwapRequest sites", P.Pos(fn.Pos()), false, fmt.Sprintf("expected the isolated attempts, found %d (anchor changed)", nApply))
 	}
 	// loop drain: from the selection at the loop head no path returns to it without a delete
 	var sel ssa.CallInstruction
@@ -393,6 +393,26 @@ func sameCoinAmount(ff *core.FuncFacts, v, coin ssa.Value) bool {
 func phiSelectsOnLastHop(ff *core.FuncFacts, v ssa.Value, want ssa.Value) bool {
 	phi, ok := ff.Fwd(v).(*ssa.Phi)
 	if !ok {
+		// the same selection kept in a local struct that is re-assigned on the last hop
+		if cases, ok := ff.MemCases(v); ok {
+			sel := false
+			for _, vc := range cases {
+				if vc.Val != want {
+					continue
+				}
+				last := false
+				for _, a := range vc.Facts {
+					if a.Rel == core.EQ && a.B != nil && (isLastIndexExpr(ff, a.A) || isLastIndexExpr(ff, a.B)) {
+						last = true
+					}
+				}
+				if !last {
+					return false // the final value can be selected off the last hop
+				}
+				sel = true
+			}
+			return sel
+		}
 		return false
 	}
 	for i, e := range phi.Edges {
@@ -452,6 +472,21 @@ func checkHopRecipients(P *core.Program, R *core.Report) {
 			sOK := ff.Fwd(args[2]) == sender
 			rcp := ff.Fwd(args[3])
 			rOK := false
+			if _, isPhi := rcp.(*ssa.Phi); !isPhi {
+				if cases, ok := ff.MemCases(args[3]); ok {
+					hasSender, onlyKnown := false, true
+					for _, vc := range cases {
+						switch vc.Val {
+						case sender:
+							hasSender = true
+						case recipient:
+						default:
+							onlyKnown = false
+						}
+					}
+					rOK = hasSender && onlyKnown && phiSelectsOnLastHop(ff, args[3], recipient)
+				}
+			}
 			if phi, isPhi := rcp.(*ssa.Phi); isPhi && len(phi.Edges) == 2 {
 				hasSender := false
 				for _, e := range phi.Edges {
